@@ -85,6 +85,12 @@ const (
 	Partial Code = 130
 )
 
+// MakeCellFromFree as the second operand of MakeCell means that the first
+// operand is an index into the free variables of the running function (the cell
+// is handed on to the closure being created) rather than the index of a local
+// variable in an enclosing frame.
+const MakeCellFromFree = 0xFFFF
+
 // BinaryOpType describes a type of binary operation, as in an operation that
 // takes two operands. For example, addition, subtraction, multiplication, etc.
 type BinaryOpType uint16
